@@ -158,10 +158,11 @@ for name in sorted(os.listdir(os.path.join(HERE, "seeded"))):
             "ran": [f"git -C /repo apply seeded/{name}/patch.diff", f"./check {prop} quick", "git -C /repo checkout -- ."],
             "result": {"verdict": verdict, "exit": r.returncode, "rule": rule, "first_failing_run": run, "wall_s": round(dt, 1),
                        "violation": (viol[0][:300] if viol else "")}}
-    json.dump(meta, open(os.path.join(d, "meta.json"), "w"), indent=1)
+    if not os.environ.get("RUN_SEEDED_DRY"):
+        json.dump(meta, open(os.path.join(d, "meta.json"), "w"), indent=1)
     rows.append((name, prop, verdict, rule, run))
     print(name, verdict, rule, "run", run, f"{dt:.0f}s", flush=True)
-if not only:
+if not only and not os.environ.get("RUN_SEEDED_DRY"):
     with open(os.path.join(HERE, "SENSITIVITY.md"), "w") as f:
         f.write("# Sensitivity: seeded changes vs. checks\n\nEach change compiles, passes the 861-test suite, and breaks its property (demonstration in `seeded/<id>/demo.rs`, confirmation in `confirmation.txt`). Written by forty sub-agents in six rounds that saw only the property text (rounds 2-3: asked for subtle changes that random testing would most likely miss; round 4: changes confined to shared helper code outside the property's own files; round 5: changes that manifest only through the environment - a failing caller-supplied writer, a platform-dependent exp2 / powi result, a serde peer; round 6: told to assume very thorough checking and to find what would still slip through). Regenerate with `tools/run_seeded.py` (applies each patch to /repo, runs the quick check, reverts).\n\n| seeded change | property | quick check | rule that fired | first failing run | what it needs |\n|---|---|---|---|---|---|\n")
         for (name, prop, verdict, rule, run) in rows:
